@@ -29,6 +29,47 @@ check("C15", "model_checking",
       "Trusted: TLC, Json reader, harness recorder (negative control each run). Backend MAC/digest adapters are private; covered via C03.",
       "TLA+ spec (PAE) + TLC exhaustive MC + TLC observation-set validation", "§4 C15")
 
+TRACE_NOTE = ("Trusted: TLC, CommunityModules Json, the harness recorder/interner (guarded on every run by corrupted-trace negative controls that "
+              "TLC must reject), the perfect-crypto assumption (accidental collisions <= 2^-128). Values are observed through the public API "
+              "only (Display, accessors, harness-defined Payload/Footer/Validate implementations).")
+check("C01", "model_checking",
+      "L0 (Ideal.tla) is model-checked exhaustively with failing draws/encoders/decoders and an attacker; every event of real "
+      "encrypt/sign -> to_string -> parse -> decrypt/verify executions with the library's own randomness (all backends, both purposes, generated "
+      "and boundary keys, payload lengths incl. every block boundary, footers, assertions, thousands of randomized signatures) is validated "
+      "against L0 by TLC, all L0 invariants evaluated at every step.", TRACE_NOTE,
+      "TLA+ L0 spec (Ideal) + TLC exhaustive MC + TLC trace validation of recorded implementation executions", "§3.3, §4 C01")
+check("C02", "model_checking",
+      "L0's acceptance rule (accept iff an entry with identical bytes, footer, assertion, header and key) is model-checked; every tamper class "
+      "of the property is applied to real tokens of every backend/purpose and each parse/unseal event is validated against L0 by TLC.", TRACE_NOTE,
+      "TLA+ L0 spec (Ideal) + TLC exhaustive MC + TLC trace validation of tamper campaigns", "§4 C02")
+check("C12", "model_checking",
+      "L0's enabling conditions (Decode only if authenticated, Validate only if decoded, error class of ReturnErr) are invariants of the model; "
+      "the tamper campaign runs with a recording / failing / panicking payload decoder and a recording validator and TLC rejects any trace in "
+      "which they run, or a payload/claims error is returned, for an unauthenticated token.", TRACE_NOTE,
+      "TLA+ L0 spec (Ideal) + TLC MC + TLC trace validation with spying decoder/validator", "§4 C12")
+check("C05", "model_checking",
+      "L0's wrapped-key table is model-checked; PIE/PBKW/PKE wrap -> to_string -> length law (Versions.tla) -> parse -> unwrap executions of every "
+      "backend (thousands of PKE seals so that rare RSA-KEM/ephemeral values occur) are validated against L0 by TLC.", TRACE_NOTE,
+      "TLA+ L0 spec (Ideal, Versions) + TLC MC + TLC trace validation", "§4 C05")
+check("C06", "model_checking",
+      "As C02 for wrapped and sealed keys: bit flips over every byte (all bits of the PBKW parameter block), truncations, extensions, other "
+      "secrets, relabel local<->secret and across versions, each unwrap validated against L0's blob table by TLC.", TRACE_NOTE +
+      " PBKW costs beyond the stated budget are parsed but not executed; passwords are compared by their identity as PBKDF2-HMAC keys for k1/k3.",
+      "TLA+ L0 spec (Ideal) + TLC MC + TLC trace validation of tamper campaigns", "§4 C06")
+check("C11", "model_checking",
+      "Claims.tla defines Accepts(expression, claims); TLC enumerates validator expressions to depth 2/3 and the claims domain, checks the "
+      "algebraic laws on every pair, the harness builds each expression with the real constructors/combinators and runs it on real claims "
+      "(6 time configurations incl. sub-second leeways), directly and through real unseals; TLC validates every result.",
+      "Trusted: TLC, Json reader, harness expression builder (negative control each run). Time is modelled as (coarse, fine) pairs.",
+      "TLA+ spec (Claims) + TLC case generation + replay on the real validators + TLC observation-set validation", "§4 C11")
+check("C14", "model_checking",
+      "ClaimsJson.tla models the decoder as a state machine; TLC checks agreement with a last-wins generic parser, order/unknown-member "
+      "independence and Decode(Encode(c)) = c exhaustively at small scale; every member sequence up to length 2 (and sampled longer ones) and "
+      "random claims for all presence masks are run through the real encoder/decoder and validated by TLC.",
+      "Trusted: TLC, Json reader, the harness' JSON rendering/projection and its independent RFC 3339 reader. String escape fidelity is "
+      "decided by round-trip equality, not modelled.",
+      "TLA+ spec (ClaimsJson) + TLC exhaustive MC + TLC observation-set validation", "§4 C14")
+
 
 def na(pid, reason):
     NOT_APPLICABLE[pid] = reason
